@@ -244,7 +244,8 @@ var vpPdfTextAct = [120]int{
 // 1 (as pending) or 2 (ps pending). vpPdfTextTables expands the two tables
 // above into a transition table indexed [ts*32 + v] (v = 0..29; 30 and 31 are
 // unused filler so that any v in 0..31 stays in range): the character produced
-// (0 = none) and the next state. All of this is concrete computation.
+// (0 = none) and the next state. All of this is concrete computation, done
+// once at package initialisation (vpPdfTch, vpPdfTnx).
 //
 // A shift applies to exactly one value, after which the latched sub-mode is
 // back in force. Where the standard is silent, ZXing is followed: a latch or
@@ -293,12 +294,15 @@ func vpPdfTextTables() (ch []int, next []int) {
 	return ch, next
 }
 
+var vpPdfTch, vpPdfTnx = vpPdfTextTables()
+
 const vpPdfLimb = 1000000000000000 // 10^15: numeric groups are kept as 3 limbs (45 digits)
 
 // vpPdfDec is the decoder state. The decoder is a state machine that consumes
 // one codeword per step; every helper takes a guard and performs its scalar
-// updates under that guard, and all loops have constant trip counts, so the
-// control structure does not depend on the codeword values.
+// updates under that guard, and all loop trip counts are concrete (constants
+// or derived from the number of codewords consumed), so the control structure
+// does not depend on the codeword values.
 type vpPdfDec struct {
 	out []byte // fixed size; n bytes are valid
 	n   int
@@ -314,8 +318,7 @@ type vpPdfDec struct {
 	num  [3]int // numeric compaction: value of the open group, base 10^15, low limb first
 	ncnt int
 
-	tch []int
-	tnx []int
+	steps int // codewords consumed so far (concrete; bounds bcnt and ncnt)
 }
 
 func vpPdfNewDec(n int, sub int) *vpPdfDec {
@@ -323,7 +326,6 @@ func vpPdfNewDec(n int, sub int) *vpPdfDec {
 	d.out = make([]byte, 3*n+8)
 	d.ok = true
 	d.ts = sub
-	d.tch, d.tnx = vpPdfTextTables()
 	return d
 }
 
@@ -337,9 +339,9 @@ func (d *vpPdfDec) emit(g bool, b int) {
 // textHalf processes one text compaction value v (0..31).
 func (d *vpPdfDec) textHalf(g bool, v int) {
 	idx := d.ts*32 + v
-	ch := d.tch[idx]
+	ch := vpPdfTch[idx]
 	if g {
-		d.ts = d.tnx[idx]
+		d.ts = vpPdfTnx[idx]
 	}
 	d.emit(g && ch != 0, ch)
 }
@@ -350,19 +352,23 @@ func (d *vpPdfDec) byteGroup(g bool) {
 	for j := 0; j < 5; j++ {
 		v = v*900 + d.bbuf[j]
 	}
-	if g && v >= 1<<48 {
-		d.ok = false
-	}
-	div := 1 << 40
-	for j := 0; j < 6; j++ {
-		d.emit(g, (v/div)%256)
-		div = div / 256
+	if g {
+		if v >= 1<<48 {
+			d.ok = false
+		}
+		d.out[d.n] = byte((v / (1 << 40)) % 256)
+		d.out[d.n+1] = byte((v / (1 << 32)) % 256)
+		d.out[d.n+2] = byte((v / (1 << 24)) % 256)
+		d.out[d.n+3] = byte((v / (1 << 16)) % 256)
+		d.out[d.n+4] = byte((v / (1 << 8)) % 256)
+		d.out[d.n+5] = byte(v % 256)
+		d.n += 6
 	}
 }
 
 // byteSingles emits the open group as one byte per codeword.
 func (d *vpPdfDec) byteSingles(g bool) {
-	for j := 0; j < 5; j++ {
+	for j := 0; j < 5 && j < d.steps; j++ {
 		gj := g && j < d.bcnt
 		if gj && d.bbuf[j] > 255 {
 			d.ok = false
@@ -372,23 +378,31 @@ func (d *vpPdfDec) byteSingles(g bool) {
 }
 
 // numFlush ends a numeric group: the base 900 value, written in decimal, is
-// a '1' followed by the digits.
+// a '1' followed by the digits. lead is -1 when the guard is off, 0 until the
+// first non-zero digit has been seen, then that digit. A group of m codewords
+// is below 900^m < 10^(3m) and m <= steps, which gives a concrete bound on the
+// digits to look at.
 func (d *vpPdfDec) numFlush(g bool) {
-	started := false
-	lead := 1
-	for j := 44; j >= 0; j-- {
+	lead := -1
+	if g {
+		lead = 0
+	}
+	hi := 3*d.steps - 1
+	if hi > 44 {
+		hi = 44
+	}
+	for j := hi; j >= 0; j-- {
 		p := 1
 		for q := 0; q < j%15; q++ {
 			p *= 10
 		}
 		dj := (d.num[j/15] / p) % 10
-		d.emit(g && started, '0'+dj)
-		if !started && dj != 0 {
-			started = true
+		d.emit(lead > 0, '0'+dj)
+		if lead == 0 {
 			lead = dj
 		}
 	}
-	if g && (!started || lead != 1) {
+	if g && lead != 1 {
 		d.ok = false
 	}
 }
@@ -401,6 +415,7 @@ func (d *vpPdfDec) numFlush(g bool) {
 // follows in the segment. In both cases fewer than 5 codewords left at the end
 // of the segment are single bytes.
 func (d *vpPdfDec) step(c int) {
+	d.steps++
 	if c < 0 || c > 928 {
 		d.ok = false
 		c = 0
